@@ -32,4 +32,10 @@ def bcEntries : List BCSurf → Except BCErr (List (Nat × String))
           | .ok es => .ok ((s.id, k) :: es)
           | .error e => .error e
 
+/-- the text `writeT4BoundCond` writes: nothing when there is no entry, else the block with its declared count -/
+def bcTextLines (es : List (Nat × String)) : List String :=
+  if es.isEmpty then [] else
+  ["", "BOUNDARY_CONDITION", toString es.length] ++
+    es.map (fun (i, k) => "ALL_COMPLETE" ++ " " ++ k ++ " " ++ toString i) ++ ["END_BOUNDARY_CONDITION"]
+
 end T4V
